@@ -55,6 +55,7 @@ def oracle(run: runner.Run, oc: Outcome) -> None:
     steps = changes.extract_steps(run)
     resume_ids = [hid for hid, h in hspecs.items() if h['kind'] == 'resume']
     relisted = 0
+    by_rid = {r.rid: r for r in run.net.requests}
     incs = run.ops.get(opid, [])
     for (op, uid), lst in steps.items():
         by_actor: dict[str, list[changes.Step]] = {}
@@ -73,7 +74,15 @@ def oracle(run: runner.Run, oc: Outcome) -> None:
                 h = hspecs[hid]
                 calls = [c for s in ss for c in s.calls if c.hid == hid]
                 finals = [c for c in calls if changes.final_outcome(c, h)]
-                if len(finals) > 1:
+                # An object deleted under a running handler: the write of its outcome meets a 404 and is dropped
+                # silently (by design); the events still queued for the vanished object are processed without it.
+                vanished = len(finals) > 1 and any(
+                    e[2] == 'rsp' and e[4] == 404 and finals[0].seq0 <= e[0] <= finals[1].seq0
+                    and (rq := by_rid.get(e[3])) is not None and rq.method == 'PATCH' and rq.session.actor == actor
+                    and rq.attrs.get('name') == finals[0].name for e in run.sim.trace)
+                if vanished:
+                    oc.probes['probe.repeated-for-a-vanished-object'] = oc.probes.get('probe.repeated-for-a-vanished-object', 0) + 1
+                elif len(finals) > 1:
                     oc.add('C14/repeated', 'twice-in-one-process',
                            f"resume handler {hid} completed {len(finals)} times for {uid} in process {actor} "
                            f"(at t={[round(c.t0, 3) for c in finals]}); listings seen: {len(listings)}", uid=uid, hid=hid)
